@@ -357,6 +357,53 @@ class Rewriter:
         self.count += 1
         return True
 
+    def option_source(self, op):
+        """operand is an Option (possibly through `.into_iter()` / `.iter()`); -> (the Option operand, blocks to neutralise) or None"""
+        l = self.local_of(op)
+        if l is None:
+            return None
+        if self.ty(l).startswith("core::option::Option<"):
+            return op, []
+        d = self.unique_def(l)
+        if d and d[0] == "call":
+            t = self.blocks[d[1]]["term"]
+            if decl_of(t) == "core::iter::traits::collect::IntoIterator::into_iter":
+                a = t["args"][0]
+                al = self.local_of(a)
+                if al is not None and self.ty(al).startswith("core::option::Option<"):
+                    return a, [d[1]]
+        return None
+
+    def rewrite_option_chain(self, bi):
+        """`a.into_iter().chain(b)` over two Options is `[a, b].into_iter().flatten()`"""
+        blk = self.blocks[bi]
+        t = blk["term"]
+        if t["t"] is None or len(t["args"]) != 2:
+            return False
+        s0, s1 = self.option_source(t["args"][0]), self.option_source(t["args"][1])
+        if s0 is None or s1 is None:
+            return False
+        sp = t["sp"]
+        oty = self.ty(self.local_of(s0[0]))
+        if self.ty(self.local_of(s1[0])) != oty:
+            return False
+        arr = self.new_local("[%s; 2]" % oty)
+        it = self.new_local("core::array::iter::IntoIter<%s, 2>" % oty)
+        blk["stmts"].append(self.assign(arr, {"k": "agg", "ak": "array", "ty": oty, "ops": [s0[0], s1[0]]}, sp))
+        fl = self.new_block([], {"k": "call", "callee": {"fn": ITER + "flatten", "targs": [], "res": ITER + "flatten", "rargs": []},
+                                 "args": [self.mv(it)], "dest": t["dest"], "t": t["t"], "sp": sp})
+        blk["term"] = {"k": "call", "callee": {"fn": "core::iter::traits::collect::IntoIterator::into_iter", "targs": ["[%s; 2]" % oty],
+                                               "res": "<[T; N] as core::iter::traits::collect::IntoIterator>::into_iter", "rargs": []},
+                       "args": [self.mv(arr)], "dest": self.pl(it), "t": fl, "sp": sp}
+        # the option's own into_iter() calls now only move the option
+        for b in s0[1] + s1[1]:
+            tb = self.blocks[b]["term"]
+            self.blocks[b]["stmts"].append(self.assign_pl(tb["dest"], self.use(tb["args"][0]), tb["sp"]))
+            self.blocks[b]["term"] = self.goto(tb["t"], tb["sp"])
+        # the operands handed to the array are the options themselves
+        self.count += 1
+        return True
+
     def rewrite_iter_terminal(self, bi):
         blk = self.blocks[bi]
         t = blk["term"]
@@ -709,6 +756,9 @@ class Rewriter:
                 if iters and dn == ITER + "next" and self.rewrite_next_on_chain(bi):
                     changed = True
                     break
+                if iters and dn == ITER + "chain" and self.rewrite_option_chain(bi):
+                    changed = True
+                    break
                 if options:
                     m = opt_method(dn)
                     if m and self.rewrite_option(bi, m):
@@ -732,7 +782,7 @@ def desugar(j, raw_bodies, iters=True, options=True):
         t = blk["term"]
         if t["k"] == "call":
             dn = decl_of(t)
-            if is_iter_decl(dn, ITER_TERMINALS) or is_iter_decl(dn, ITER_ADAPTORS) or opt_method(dn) or bool_method(dn) or res_method(dn):
+            if is_iter_decl(dn, ITER_TERMINALS) or is_iter_decl(dn, ITER_ADAPTORS) or opt_method(dn) or bool_method(dn) or res_method(dn) or dn == ITER + "chain":
                 interesting = True
                 break
     if not interesting:
